@@ -267,6 +267,11 @@ func (w *world) step(op string) (status string) {
 			return "err"
 		}
 		return w.newOrSame(r)
+	case "reshape":
+		if err := T(1).Reshape(ints(f[2])...); err != nil {
+			return "err"
+		}
+		return "ok"
 	case "apitranspose":
 		rt, err := tensor.Transpose(T(1), ints(f[2])...)
 		if err != nil {
